@@ -116,10 +116,12 @@ Theorem C03_step_symlink : forall (s : fsys) (sv : sview) (w : list str) (cl : s
   (fst (symlink s (sv_view sv) t p), proj_res Linux (snd (symlink s (sv_view sv) t p))) = k_symlink s sv (clean Linux t) p.
 Proof. exact dstep_symlink. Qed.
 
-(* write + search permission on the parent.  [no_sticky_refusal]: the sticky rule (listed: C03-STICKY);
+(* write + search permission on the parent (EACCES), then the sticky rule (EPERM: in a directory with the sticky bit only
+   the administrator, the owner of the directory or the owner of the entry - this was the deviation C03-STICKY and a
+   premise [no_sticky_refusal] until Remove and Rename were repaired);
    [sym_single]: no hard-linked symbolic link (the implementation never makes one) *)
 Theorem C03_step_remove : forall (s : fsys) (sv : sview) (w : list str) (cl : str),
-  dac_hyps s sv -> path_ok s sv SlLstat (w ++ [cl]) -> sym_single (f_heap s) -> no_sticky_refusal s sv (w ++ [cl]) ->
+  dac_hyps s sv -> path_ok s sv SlLstat (w ++ [cl]) -> sym_single (f_heap s) ->
   let p := abs_path (w ++ [cl]) in
   (fst (remove s (sv_view sv) p), proj_res Linux (snd (remove s (sv_view sv) p))) = go_remove s sv p.
 Proof. exact dstep_remove. Qed.
@@ -170,12 +172,11 @@ Theorem C03_step_open_excl : forall (s : fsys) (sv : sview) (w : list str) (cl :
 Proof. exact dstep_open_excl. Qed.
 
 (* Rename of a file or symbolic link to a name that does not exist, same or other directory: write + search
-   permission on both directories.  [rename_one_error]: errno priority; [no_sticky_refusal]: C03-STICKY.
+   permission on both directories.  [rename_one_error]: errno priority; the sticky rule of the source directory is covered.
    (Rename of a directory, and onto an existing entry, are not covered: see design.d/C03-proofs.md.) *)
 Theorem C03_step_rename_partial : forall (s : fsys) (sv : sview) (wo : list str) (clo : str) (w : list str) (cl : str),
   dac_hyps s sv -> path_ok s sv SlLstat (wo ++ [clo]) -> path_ok s sv SlLstat (w ++ [cl]) ->
   source_not_dir s sv (wo ++ [clo]) -> dest_absent s sv (w ++ [cl]) -> rename_one_error s sv (wo ++ [clo]) (w ++ [cl]) ->
-  no_sticky_refusal s sv (wo ++ [clo]) ->
   let o := abs_path (wo ++ [clo]) in
   let p := abs_path (w ++ [cl]) in
   (fst (rename s (sv_view sv) o p), proj_res Linux (snd (rename s (sv_view sv) o p))) = go_rename s sv o p.
@@ -187,7 +188,7 @@ Proof. exact dstep_rename_file_new. Qed.
 Theorem C03_step_rename_dir_partial : forall (s : fsys) (sv : sview) (wo : list str) (clo : str) (w : list str) (cl : str),
   dac_hyps s sv -> path_ok s sv SlLstat (wo ++ [clo]) -> path_ok s sv SlLstat (w ++ [cl]) ->
   source_is_dir s sv (wo ++ [clo]) -> dest_absent s sv (w ++ [cl]) -> rename_one_error s sv (wo ++ [clo]) (w ++ [cl]) ->
-  no_sticky_refusal s sv (wo ++ [clo]) -> not_into_itself s sv (wo ++ [clo]) (w ++ [cl]) ->
+  not_into_itself s sv (wo ++ [clo]) (w ++ [cl]) ->
   moved_dir_writable s sv (wo ++ [clo]) (w ++ [cl]) ->
   let o := abs_path (wo ++ [clo]) in
   let p := abs_path (w ++ [cl]) in
@@ -196,12 +197,12 @@ Proof. exact dstep_rename_dir_new. Qed.
 
 (* Rename of a file or link onto an existing file or link: the DECISION (allowed / refused, errno) is the kernel's.
    The resulting heaps differ in the order of the destination directory's children (map overwrite vs unlink + add),
-   so only the result is compared.  [distinct_nodes]: C03-RENAME-SAME; the two [no_sticky_refusal]: C03-STICKY *)
+   so only the result is compared.  [distinct_nodes]: C03-RENAME-SAME; the sticky rule of both directories (source entry, replaced entry)
+   is covered *)
 Theorem C03_step_rename_replace_partial : forall (s : fsys) (sv : sview) (wo : list str) (clo : str) (w : list str) (cl : str),
   dac_hyps s sv -> path_ok s sv SlLstat (wo ++ [clo]) -> path_ok s sv SlLstat (w ++ [cl]) ->
   source_not_dir s sv (wo ++ [clo]) -> dest_present s sv (w ++ [cl]) -> dest_nondir s sv (w ++ [cl]) ->
   distinct_nodes s sv (wo ++ [clo]) (w ++ [cl]) ->
-  no_sticky_refusal s sv (wo ++ [clo]) -> no_sticky_refusal s sv (w ++ [cl]) ->
   let o := abs_path (wo ++ [clo]) in
   let p := abs_path (w ++ [cl]) in
   proj_res Linux (snd (rename s (sv_view sv) o p)) = snd (go_rename s sv o p).
@@ -361,6 +362,17 @@ Example C03_example_setgid_inherit :
   /\ meta_at (f_heap (fst (mkdir DacTree.dfs_sg (DacTree.view_of DacTree.bob 18) p 511))) 9
      = Some (DacTree.mk (N.lor MODE_DIR (N.lor MODE_SETGID 493)) 1001 2000).
 Proof. exact DacTree.mkdir_setgid_inherits. Qed.
+
+(* the sticky rule: /t is 01777 root's, /t/b is bob's; alice, who may write /t, is refused Remove with EPERM on both
+   sides - the step theorem applies (the former deviation C03-STICKY) *)
+Example C03_example_sticky :
+  let p := abs_path ([DacTree.n_t] ++ [DacTree.n_b]) in
+  sticky_refuses DacTree.dtree 6 7 DacTree.alice = true
+  /\ (fst (remove DacTree.dfs (DacTree.view_of DacTree.alice 18) p),
+      proj_res Linux (snd (remove DacTree.dfs (DacTree.view_of DacTree.alice 18) p)))
+     = go_remove DacTree.dfs (DacTree.svu DacTree.alice 18) p
+  /\ snd (go_remove DacTree.dfs (DacTree.svu DacTree.alice 18) p) = SErr EPERM.
+Proof. exact DacTree.remove_sticky_refused. Qed.
 
 (* the administrator theorem applies to the initial world of MemFS *)
 Example C03_example_admin : forall um c, call_view (init_world_linux um) c = 0 ->
